@@ -98,7 +98,13 @@ func ToStringKey(values ...interface{}) string {
 			results[idx] = "nil"
 			vv := reflect.ValueOf(v)
 			if vv.IsValid() && !vv.IsZero() {
-				results[idx] = fmt.Sprint(reflect.Indirect(vv).Interface())
+				// strings behind pointers and named string types are escaped like
+				// plain strings, so that both sides of a relation build the same key
+				if iv := reflect.Indirect(vv); iv.Kind() == reflect.String {
+					results[idx] = escapeStringKey(iv.String())
+				} else {
+					results[idx] = fmt.Sprint(iv.Interface())
+				}
 			}
 		}
 	}
